@@ -8,6 +8,7 @@ One theorem per symmetry m = 0, 1, 2 (planar, cylindrical, spherical).  Hypothes
 (`NohIC.Admissible m`), ρ ≠ 0 (the guard of every method) and D ≠ 0 (the code divides by D).
 -/
 import EPV.Lemmas.C16ResDefs
+import EPV.Lemmas.Bridge.EosTac
 
 set_option linter.all false
 set_option maxHeartbeats 1000000
@@ -24,527 +25,382 @@ theorem pressureS0_jacobian_partial (s : EOS) (ic : NohIC) (ρ x D : ℝ) (hic :
     (hs : s.PressureDerivsAt ρ x) :
     HasDerivAt (fun r => PressureS0.F s ic r x D 0) (PressureS0.J s ic ρ x D 0 0) ρ ∧ HasDerivAt (fun r => PressureS0.F s ic ρ r D 0) (PressureS0.J s ic ρ x D 0 1) x ∧ HasDerivAt (fun r => PressureS0.F s ic ρ x r 0) (PressureS0.J s ic ρ x D 0 2) D ∧ HasDerivAt (fun r => PressureS0.F s ic r x D 1) (PressureS0.J s ic ρ x D 1 0) ρ ∧ HasDerivAt (fun r => PressureS0.F s ic ρ r D 1) (PressureS0.J s ic ρ x D 1 1) x ∧ HasDerivAt (fun r => PressureS0.F s ic ρ x r 1) (PressureS0.J s ic ρ x D 1 2) D ∧ HasDerivAt (fun r => PressureS0.F s ic ρ r D 2) (PressureS0.J s ic ρ x D 2 1) x ∧ HasDerivAt (fun r => PressureS0.F s ic ρ x r 2) (PressureS0.J s ic ρ x D 2 2) D := by
   obtain ⟨hu, hr0, hP0, hm⟩ := hic
-  have k0 : ¬ (0 ≤ ic.u_0) := not_le.mpr hu
-  have k1 : ¬ (ic.rho_0 ≤ 0) := not_le.mpr hr0
-  have k2 : ¬ (ic.P_0 < 0) := not_lt.mpr hP0
-  have k3 : True := trivial
   set p := PressureS0.pres s ic ρ x with hp
   refine ⟨?_, ?_, ?_, ?_, ?_, ?_, ?_, ?_⟩
   · have hc : HasDerivAt (fun r => ResPressureAbsS0_res.L4.F0 p r x D) (ResPressureAbsS0_res.L4.F0_drho p ρ x D) ρ := by
-      apply ResPressureAbsS0_res.L4.F0_hasDerivAt_rho <;> assumption
+      epv_eos_cert ResPressureAbsS0_res.L4.F0_hasDerivAt_rho p ρ x D
     have hev : (fun r => PressureS0.F s ic r x D 0) =ᶠ[nhds ρ] fun r => ResPressureAbsS0_res.L4.F0 p r x D := by
       filter_upwards [isOpen_ne.mem_nhds hρ] with r hr
-      simp only [PressureS0.F, hp, epv_c16, epv_tree, epv_cond, epv_leaf, hr, k0, k1, k2, k3, if_true, if_false, lt_self_iff_false, Matrix.of_apply, Matrix.cons_val, Fin.zero_eta, Fin.mk_one, Fin.reduceFinMk, Fin.isValue]
-      try ring
+      simp only [PressureS0.F, hp] <;> epv_eos_res_eq
     refine (hc.congr_of_eventuallyEq hev).congr_deriv ?_
-    simp only [PressureS0.J, hp, epv_c16, epv_tree, epv_cond, epv_leaf, epv_deriv, hρ, k0, k1, k2, k3, if_true, if_false, lt_self_iff_false, Matrix.of_apply, Matrix.cons_val, Fin.zero_eta, Fin.mk_one, Fin.reduceFinMk, Fin.isValue]
-    try field_simp
-    try ring
+    simp only [PressureS0.J, hp] <;> epv_eos_res_unfold <;> epv_eos_field
   · have hc : HasDerivAt (fun r => ResPressureAbsS0_res.L4.F0 p ρ r D) (ResPressureAbsS0_res.L4.F0_dsie p ρ x D) x := by
-      apply ResPressureAbsS0_res.L4.F0_hasDerivAt_sie <;> assumption
+      epv_eos_cert ResPressureAbsS0_res.L4.F0_hasDerivAt_sie p ρ x D
     have hev : (fun r => PressureS0.F s ic ρ r D 0) =ᶠ[nhds x] fun r => ResPressureAbsS0_res.L4.F0 p ρ r D := by
       filter_upwards with r
-      have hr := hρ
-      simp only [PressureS0.F, hp, epv_c16, epv_tree, epv_cond, epv_leaf, hr, k0, k1, k2, k3, if_true, if_false, lt_self_iff_false, Matrix.of_apply, Matrix.cons_val, Fin.zero_eta, Fin.mk_one, Fin.reduceFinMk, Fin.isValue]
-      try ring
+      simp only [PressureS0.F, hp] <;> epv_eos_res_eq
     refine (hc.congr_of_eventuallyEq hev).congr_deriv ?_
-    simp only [PressureS0.J, hp, epv_c16, epv_tree, epv_cond, epv_leaf, epv_deriv, hρ, k0, k1, k2, k3, if_true, if_false, lt_self_iff_false, Matrix.of_apply, Matrix.cons_val, Fin.zero_eta, Fin.mk_one, Fin.reduceFinMk, Fin.isValue]
-    try field_simp
-    try ring
+    simp only [PressureS0.J, hp] <;> epv_eos_res_unfold <;> epv_eos_field
   · have hc : HasDerivAt (fun r => ResPressureAbsS0_res.L4.F0 p ρ x r) (ResPressureAbsS0_res.L4.F0_dD p ρ x D) D := by
-      apply ResPressureAbsS0_res.L4.F0_hasDerivAt_D <;> assumption
+      epv_eos_cert ResPressureAbsS0_res.L4.F0_hasDerivAt_D p ρ x D
     have hev : (fun r => PressureS0.F s ic ρ x r 0) =ᶠ[nhds D] fun r => ResPressureAbsS0_res.L4.F0 p ρ x r := by
-      filter_upwards with r
-      have hr := hρ
-      simp only [PressureS0.F, hp, epv_c16, epv_tree, epv_cond, epv_leaf, hr, k0, k1, k2, k3, if_true, if_false, lt_self_iff_false, Matrix.of_apply, Matrix.cons_val, Fin.zero_eta, Fin.mk_one, Fin.reduceFinMk, Fin.isValue]
-      try ring
+      filter_upwards [isOpen_ne.mem_nhds hD] with r hr
+      simp only [PressureS0.F, hp] <;> epv_eos_res_eq
     refine (hc.congr_of_eventuallyEq hev).congr_deriv ?_
-    simp only [PressureS0.J, hp, epv_c16, epv_tree, epv_cond, epv_leaf, epv_deriv, hρ, k0, k1, k2, k3, if_true, if_false, lt_self_iff_false, Matrix.of_apply, Matrix.cons_val, Fin.zero_eta, Fin.mk_one, Fin.reduceFinMk, Fin.isValue]
-    try field_simp
-    try ring
+    simp only [PressureS0.J, hp] <;> epv_eos_res_unfold <;> epv_eos_field
   · have hc : HasDerivAt (fun r => ResPressureAbsS0_res.L4.F1 p r x D) (ResPressureAbsS0_res.L4.F1_drho p ρ x D) ρ := by
-      apply ResPressureAbsS0_res.L4.F1_hasDerivAt_rho <;> assumption
+      epv_eos_cert ResPressureAbsS0_res.L4.F1_hasDerivAt_rho p ρ x D
     have hev : (fun r => PressureS0.F s ic r x D 1) =ᶠ[nhds ρ] fun r => (s.P r x - s.P ρ x) + ResPressureAbsS0_res.L4.F1 p r x D := by
       filter_upwards [isOpen_ne.mem_nhds hρ] with r hr
-      simp only [PressureS0.F, hp, epv_c16, epv_tree, epv_cond, epv_leaf, hr, k0, k1, k2, k3, if_true, if_false, lt_self_iff_false, Matrix.of_apply, Matrix.cons_val, Fin.zero_eta, Fin.mk_one, Fin.reduceFinMk, Fin.isValue]
-      try ring
+      simp only [PressureS0.F, hp] <;> epv_eos_res_eq
     refine (((hs.1.sub_const _).add hc).congr_of_eventuallyEq hev).congr_deriv ?_
-    simp only [PressureS0.J, hp, epv_c16, epv_tree, epv_cond, epv_leaf, epv_deriv, hρ, k0, k1, k2, k3, if_true, if_false, lt_self_iff_false, Matrix.of_apply, Matrix.cons_val, Fin.zero_eta, Fin.mk_one, Fin.reduceFinMk, Fin.isValue]
-    try field_simp
-    try ring
+    simp only [PressureS0.J, hp] <;> epv_eos_res_unfold <;> epv_eos_field
   · have hc : HasDerivAt (fun r => ResPressureAbsS0_res.L4.F1 p ρ r D) (ResPressureAbsS0_res.L4.F1_dsie p ρ x D) x := by
-      apply ResPressureAbsS0_res.L4.F1_hasDerivAt_sie <;> assumption
+      epv_eos_cert ResPressureAbsS0_res.L4.F1_hasDerivAt_sie p ρ x D
     have hev : (fun r => PressureS0.F s ic ρ r D 1) =ᶠ[nhds x] fun r => (s.P ρ r - s.P ρ x) + ResPressureAbsS0_res.L4.F1 p ρ r D := by
       filter_upwards with r
-      have hr := hρ
-      simp only [PressureS0.F, hp, epv_c16, epv_tree, epv_cond, epv_leaf, hr, k0, k1, k2, k3, if_true, if_false, lt_self_iff_false, Matrix.of_apply, Matrix.cons_val, Fin.zero_eta, Fin.mk_one, Fin.reduceFinMk, Fin.isValue]
-      try ring
+      simp only [PressureS0.F, hp] <;> epv_eos_res_eq
     refine (((hs.2.sub_const _).add hc).congr_of_eventuallyEq hev).congr_deriv ?_
-    simp only [PressureS0.J, hp, epv_c16, epv_tree, epv_cond, epv_leaf, epv_deriv, hρ, k0, k1, k2, k3, if_true, if_false, lt_self_iff_false, Matrix.of_apply, Matrix.cons_val, Fin.zero_eta, Fin.mk_one, Fin.reduceFinMk, Fin.isValue]
-    try field_simp
-    try ring
+    simp only [PressureS0.J, hp] <;> epv_eos_res_unfold <;> epv_eos_field
   · have hc : HasDerivAt (fun r => ResPressureAbsS0_res.L4.F1 p ρ x r) (ResPressureAbsS0_res.L4.F1_dD p ρ x D) D := by
-      apply ResPressureAbsS0_res.L4.F1_hasDerivAt_D <;> assumption
+      epv_eos_cert ResPressureAbsS0_res.L4.F1_hasDerivAt_D p ρ x D
     have hev : (fun r => PressureS0.F s ic ρ x r 1) =ᶠ[nhds D] fun r => ResPressureAbsS0_res.L4.F1 p ρ x r := by
-      filter_upwards with r
-      have hr := hρ
-      simp only [PressureS0.F, hp, epv_c16, epv_tree, epv_cond, epv_leaf, hr, k0, k1, k2, k3, if_true, if_false, lt_self_iff_false, Matrix.of_apply, Matrix.cons_val, Fin.zero_eta, Fin.mk_one, Fin.reduceFinMk, Fin.isValue]
-      try ring
+      filter_upwards [isOpen_ne.mem_nhds hD] with r hr
+      simp only [PressureS0.F, hp] <;> epv_eos_res_eq
     refine (hc.congr_of_eventuallyEq hev).congr_deriv ?_
-    simp only [PressureS0.J, hp, epv_c16, epv_tree, epv_cond, epv_leaf, epv_deriv, hρ, k0, k1, k2, k3, if_true, if_false, lt_self_iff_false, Matrix.of_apply, Matrix.cons_val, Fin.zero_eta, Fin.mk_one, Fin.reduceFinMk, Fin.isValue]
-    try field_simp
-    try ring
+    simp only [PressureS0.J, hp] <;> epv_eos_res_unfold <;> epv_eos_field
   · have hc : HasDerivAt (fun r => ResPressureAbsS0_res.L4.F2 p ρ r D) (ResPressureAbsS0_res.L4.F2_dsie p ρ x D) x := by
-      apply ResPressureAbsS0_res.L4.F2_hasDerivAt_sie <;> assumption
+      epv_eos_cert ResPressureAbsS0_res.L4.F2_hasDerivAt_sie p ρ x D
     have hev : (fun r => PressureS0.F s ic ρ r D 2) =ᶠ[nhds x] fun r => ResPressureAbsS0_res.L4.F2 p ρ r D := by
       filter_upwards with r
-      have hr := hρ
-      simp only [PressureS0.F, hp, epv_c16, epv_tree, epv_cond, epv_leaf, hr, k0, k1, k2, k3, if_true, if_false, lt_self_iff_false, Matrix.of_apply, Matrix.cons_val, Fin.zero_eta, Fin.mk_one, Fin.reduceFinMk, Fin.isValue]
-      try ring
+      simp only [PressureS0.F, hp] <;> epv_eos_res_eq
     refine (hc.congr_of_eventuallyEq hev).congr_deriv ?_
-    simp only [PressureS0.J, hp, epv_c16, epv_tree, epv_cond, epv_leaf, epv_deriv, hρ, k0, k1, k2, k3, if_true, if_false, lt_self_iff_false, Matrix.of_apply, Matrix.cons_val, Fin.zero_eta, Fin.mk_one, Fin.reduceFinMk, Fin.isValue]
-    try field_simp
-    try ring
+    simp only [PressureS0.J, hp] <;> epv_eos_res_unfold <;> epv_eos_field
   · have hc : HasDerivAt (fun r => ResPressureAbsS0_res.L4.F2 p ρ x r) (ResPressureAbsS0_res.L4.F2_dD p ρ x D) D := by
-      apply ResPressureAbsS0_res.L4.F2_hasDerivAt_D <;> assumption
+      epv_eos_cert ResPressureAbsS0_res.L4.F2_hasDerivAt_D p ρ x D
     have hev : (fun r => PressureS0.F s ic ρ x r 2) =ᶠ[nhds D] fun r => ResPressureAbsS0_res.L4.F2 p ρ x r := by
-      filter_upwards with r
-      have hr := hρ
-      simp only [PressureS0.F, hp, epv_c16, epv_tree, epv_cond, epv_leaf, hr, k0, k1, k2, k3, if_true, if_false, lt_self_iff_false, Matrix.of_apply, Matrix.cons_val, Fin.zero_eta, Fin.mk_one, Fin.reduceFinMk, Fin.isValue]
-      try ring
+      filter_upwards [isOpen_ne.mem_nhds hD] with r hr
+      simp only [PressureS0.F, hp] <;> epv_eos_res_eq
     refine (hc.congr_of_eventuallyEq hev).congr_deriv ?_
-    simp only [PressureS0.J, hp, epv_c16, epv_tree, epv_cond, epv_leaf, epv_deriv, hρ, k0, k1, k2, k3, if_true, if_false, lt_self_iff_false, Matrix.of_apply, Matrix.cons_val, Fin.zero_eta, Fin.mk_one, Fin.reduceFinMk, Fin.isValue]
-    try field_simp
-    try ring
+    simp only [PressureS0.J, hp] <;> epv_eos_res_unfold <;> epv_eos_field
 
 /-- `pressure_noh_residual`, planar, P₀ = 0: the whole `F_prime` is the Jacobian of `F` -/
 theorem pressureS0_jacobian_P0_zero (s : EOS) (ic : NohIC) (ρ x D : ℝ) (hic : ic.Admissible 0) (hρ : ρ ≠ 0) (hD : D ≠ 0) (hP : ic.P_0 = 0)
     (hs : s.PressureDerivsAt ρ x) :
     IsJacobian3 (PressureS0.F s ic) (PressureS0.J s ic ρ x D) ρ x D := by
   obtain ⟨hu, hr0, hP0, hm⟩ := hic
-  have k0 : ¬ (0 ≤ ic.u_0) := not_le.mpr hu
-  have k1 : ¬ (ic.rho_0 ≤ 0) := not_le.mpr hr0
-  have k2 : ¬ (ic.P_0 < 0) := not_lt.mpr hP0
-  have k3 : True := trivial
   set p := PressureS0.pres s ic ρ x with hp
   intro i
   fin_cases i <;> (try simp only [Fin.zero_eta, Fin.mk_one, Fin.reduceFinMk])
   · refine ⟨?_, ?_, ?_⟩
     · have hc : HasDerivAt (fun r => ResPressureAbsS0_res.L4.F0 p r x D) (ResPressureAbsS0_res.L4.F0_drho p ρ x D) ρ := by
-        apply ResPressureAbsS0_res.L4.F0_hasDerivAt_rho <;> assumption
+        epv_eos_cert ResPressureAbsS0_res.L4.F0_hasDerivAt_rho p ρ x D
       have hev : (fun r => PressureS0.F s ic r x D 0) =ᶠ[nhds ρ] fun r => ResPressureAbsS0_res.L4.F0 p r x D := by
         filter_upwards [isOpen_ne.mem_nhds hρ] with r hr
-        simp only [PressureS0.F, hp, epv_c16, epv_tree, epv_cond, epv_leaf, hr, hP, k0, k1, k2, k3, if_true, if_false, lt_self_iff_false, Matrix.of_apply, Matrix.cons_val, Fin.zero_eta, Fin.mk_one, Fin.reduceFinMk, Fin.isValue]
-        try ring
+        simp only [PressureS0.F, hp] <;> epv_eos_res_eq
       refine (hc.congr_of_eventuallyEq hev).congr_deriv ?_
-      simp only [PressureS0.J, hp, epv_c16, epv_tree, epv_cond, epv_leaf, epv_deriv, hρ, hP, k0, k1, k2, k3, if_true, if_false, lt_self_iff_false, Matrix.of_apply, Matrix.cons_val, Fin.zero_eta, Fin.mk_one, Fin.reduceFinMk, Fin.isValue]
-      try field_simp
-      try ring
+      simp only [PressureS0.J, hp] <;> epv_eos_res_unfold <;> (try simp only [hP]) <;> epv_eos_field
     · have hc : HasDerivAt (fun r => ResPressureAbsS0_res.L4.F0 p ρ r D) (ResPressureAbsS0_res.L4.F0_dsie p ρ x D) x := by
-        apply ResPressureAbsS0_res.L4.F0_hasDerivAt_sie <;> assumption
+        epv_eos_cert ResPressureAbsS0_res.L4.F0_hasDerivAt_sie p ρ x D
       have hev : (fun r => PressureS0.F s ic ρ r D 0) =ᶠ[nhds x] fun r => ResPressureAbsS0_res.L4.F0 p ρ r D := by
         filter_upwards with r
-        have hr := hρ
-        simp only [PressureS0.F, hp, epv_c16, epv_tree, epv_cond, epv_leaf, hr, hP, k0, k1, k2, k3, if_true, if_false, lt_self_iff_false, Matrix.of_apply, Matrix.cons_val, Fin.zero_eta, Fin.mk_one, Fin.reduceFinMk, Fin.isValue]
-        try ring
+        simp only [PressureS0.F, hp] <;> epv_eos_res_eq
       refine (hc.congr_of_eventuallyEq hev).congr_deriv ?_
-      simp only [PressureS0.J, hp, epv_c16, epv_tree, epv_cond, epv_leaf, epv_deriv, hρ, hP, k0, k1, k2, k3, if_true, if_false, lt_self_iff_false, Matrix.of_apply, Matrix.cons_val, Fin.zero_eta, Fin.mk_one, Fin.reduceFinMk, Fin.isValue]
-      try field_simp
-      try ring
+      simp only [PressureS0.J, hp] <;> epv_eos_res_unfold <;> (try simp only [hP]) <;> epv_eos_field
     · have hc : HasDerivAt (fun r => ResPressureAbsS0_res.L4.F0 p ρ x r) (ResPressureAbsS0_res.L4.F0_dD p ρ x D) D := by
-        apply ResPressureAbsS0_res.L4.F0_hasDerivAt_D <;> assumption
+        epv_eos_cert ResPressureAbsS0_res.L4.F0_hasDerivAt_D p ρ x D
       have hev : (fun r => PressureS0.F s ic ρ x r 0) =ᶠ[nhds D] fun r => ResPressureAbsS0_res.L4.F0 p ρ x r := by
-        filter_upwards with r
-        have hr := hρ
-        simp only [PressureS0.F, hp, epv_c16, epv_tree, epv_cond, epv_leaf, hr, hP, k0, k1, k2, k3, if_true, if_false, lt_self_iff_false, Matrix.of_apply, Matrix.cons_val, Fin.zero_eta, Fin.mk_one, Fin.reduceFinMk, Fin.isValue]
-        try ring
+        filter_upwards [isOpen_ne.mem_nhds hD] with r hr
+        simp only [PressureS0.F, hp] <;> epv_eos_res_eq
       refine (hc.congr_of_eventuallyEq hev).congr_deriv ?_
-      simp only [PressureS0.J, hp, epv_c16, epv_tree, epv_cond, epv_leaf, epv_deriv, hρ, hP, k0, k1, k2, k3, if_true, if_false, lt_self_iff_false, Matrix.of_apply, Matrix.cons_val, Fin.zero_eta, Fin.mk_one, Fin.reduceFinMk, Fin.isValue]
-      try field_simp
-      try ring
+      simp only [PressureS0.J, hp] <;> epv_eos_res_unfold <;> (try simp only [hP]) <;> epv_eos_field
   · refine ⟨?_, ?_, ?_⟩
     · have hc : HasDerivAt (fun r => ResPressureAbsS0_res.L4.F1 p r x D) (ResPressureAbsS0_res.L4.F1_drho p ρ x D) ρ := by
-        apply ResPressureAbsS0_res.L4.F1_hasDerivAt_rho <;> assumption
+        epv_eos_cert ResPressureAbsS0_res.L4.F1_hasDerivAt_rho p ρ x D
       have hev : (fun r => PressureS0.F s ic r x D 1) =ᶠ[nhds ρ] fun r => (s.P r x - s.P ρ x) + ResPressureAbsS0_res.L4.F1 p r x D := by
         filter_upwards [isOpen_ne.mem_nhds hρ] with r hr
-        simp only [PressureS0.F, hp, epv_c16, epv_tree, epv_cond, epv_leaf, hr, hP, k0, k1, k2, k3, if_true, if_false, lt_self_iff_false, Matrix.of_apply, Matrix.cons_val, Fin.zero_eta, Fin.mk_one, Fin.reduceFinMk, Fin.isValue]
-        try ring
+        simp only [PressureS0.F, hp] <;> epv_eos_res_eq
       refine (((hs.1.sub_const _).add hc).congr_of_eventuallyEq hev).congr_deriv ?_
-      simp only [PressureS0.J, hp, epv_c16, epv_tree, epv_cond, epv_leaf, epv_deriv, hρ, hP, k0, k1, k2, k3, if_true, if_false, lt_self_iff_false, Matrix.of_apply, Matrix.cons_val, Fin.zero_eta, Fin.mk_one, Fin.reduceFinMk, Fin.isValue]
-      try field_simp
-      try ring
+      simp only [PressureS0.J, hp] <;> epv_eos_res_unfold <;> (try simp only [hP]) <;> epv_eos_field
     · have hc : HasDerivAt (fun r => ResPressureAbsS0_res.L4.F1 p ρ r D) (ResPressureAbsS0_res.L4.F1_dsie p ρ x D) x := by
-        apply ResPressureAbsS0_res.L4.F1_hasDerivAt_sie <;> assumption
+        epv_eos_cert ResPressureAbsS0_res.L4.F1_hasDerivAt_sie p ρ x D
       have hev : (fun r => PressureS0.F s ic ρ r D 1) =ᶠ[nhds x] fun r => (s.P ρ r - s.P ρ x) + ResPressureAbsS0_res.L4.F1 p ρ r D := by
         filter_upwards with r
-        have hr := hρ
-        simp only [PressureS0.F, hp, epv_c16, epv_tree, epv_cond, epv_leaf, hr, hP, k0, k1, k2, k3, if_true, if_false, lt_self_iff_false, Matrix.of_apply, Matrix.cons_val, Fin.zero_eta, Fin.mk_one, Fin.reduceFinMk, Fin.isValue]
-        try ring
+        simp only [PressureS0.F, hp] <;> epv_eos_res_eq
       refine (((hs.2.sub_const _).add hc).congr_of_eventuallyEq hev).congr_deriv ?_
-      simp only [PressureS0.J, hp, epv_c16, epv_tree, epv_cond, epv_leaf, epv_deriv, hρ, hP, k0, k1, k2, k3, if_true, if_false, lt_self_iff_false, Matrix.of_apply, Matrix.cons_val, Fin.zero_eta, Fin.mk_one, Fin.reduceFinMk, Fin.isValue]
-      try field_simp
-      try ring
+      simp only [PressureS0.J, hp] <;> epv_eos_res_unfold <;> (try simp only [hP]) <;> epv_eos_field
     · have hc : HasDerivAt (fun r => ResPressureAbsS0_res.L4.F1 p ρ x r) (ResPressureAbsS0_res.L4.F1_dD p ρ x D) D := by
-        apply ResPressureAbsS0_res.L4.F1_hasDerivAt_D <;> assumption
+        epv_eos_cert ResPressureAbsS0_res.L4.F1_hasDerivAt_D p ρ x D
       have hev : (fun r => PressureS0.F s ic ρ x r 1) =ᶠ[nhds D] fun r => ResPressureAbsS0_res.L4.F1 p ρ x r := by
-        filter_upwards with r
-        have hr := hρ
-        simp only [PressureS0.F, hp, epv_c16, epv_tree, epv_cond, epv_leaf, hr, hP, k0, k1, k2, k3, if_true, if_false, lt_self_iff_false, Matrix.of_apply, Matrix.cons_val, Fin.zero_eta, Fin.mk_one, Fin.reduceFinMk, Fin.isValue]
-        try ring
+        filter_upwards [isOpen_ne.mem_nhds hD] with r hr
+        simp only [PressureS0.F, hp] <;> epv_eos_res_eq
       refine (hc.congr_of_eventuallyEq hev).congr_deriv ?_
-      simp only [PressureS0.J, hp, epv_c16, epv_tree, epv_cond, epv_leaf, epv_deriv, hρ, hP, k0, k1, k2, k3, if_true, if_false, lt_self_iff_false, Matrix.of_apply, Matrix.cons_val, Fin.zero_eta, Fin.mk_one, Fin.reduceFinMk, Fin.isValue]
-      try field_simp
-      try ring
+      simp only [PressureS0.J, hp] <;> epv_eos_res_unfold <;> (try simp only [hP]) <;> epv_eos_field
   · refine ⟨?_, ?_, ?_⟩
     · have hc : HasDerivAt (fun r => ResPressureAbsS0_res.L4.F2 p r x D) (ResPressureAbsS0_res.L4.F2_drho p ρ x D) ρ := by
-        apply ResPressureAbsS0_res.L4.F2_hasDerivAt_rho <;> assumption
+        epv_eos_cert ResPressureAbsS0_res.L4.F2_hasDerivAt_rho p ρ x D
       have hev : (fun r => PressureS0.F s ic r x D 2) =ᶠ[nhds ρ] fun r => ResPressureAbsS0_res.L4.F2 p r x D := by
         filter_upwards [isOpen_ne.mem_nhds hρ] with r hr
-        simp only [PressureS0.F, hp, epv_c16, epv_tree, epv_cond, epv_leaf, hr, hP, k0, k1, k2, k3, if_true, if_false, lt_self_iff_false, Matrix.of_apply, Matrix.cons_val, Fin.zero_eta, Fin.mk_one, Fin.reduceFinMk, Fin.isValue]
-        try ring
+        simp only [PressureS0.F, hp] <;> epv_eos_res_eq
       refine (hc.congr_of_eventuallyEq hev).congr_deriv ?_
-      simp only [PressureS0.J, hp, epv_c16, epv_tree, epv_cond, epv_leaf, epv_deriv, hρ, hP, k0, k1, k2, k3, if_true, if_false, lt_self_iff_false, Matrix.of_apply, Matrix.cons_val, Fin.zero_eta, Fin.mk_one, Fin.reduceFinMk, Fin.isValue]
-      try field_simp
-      try ring
+      simp only [PressureS0.J, hp] <;> epv_eos_res_unfold <;> (try simp only [hP]) <;> epv_eos_field
     · have hc : HasDerivAt (fun r => ResPressureAbsS0_res.L4.F2 p ρ r D) (ResPressureAbsS0_res.L4.F2_dsie p ρ x D) x := by
-        apply ResPressureAbsS0_res.L4.F2_hasDerivAt_sie <;> assumption
+        epv_eos_cert ResPressureAbsS0_res.L4.F2_hasDerivAt_sie p ρ x D
       have hev : (fun r => PressureS0.F s ic ρ r D 2) =ᶠ[nhds x] fun r => ResPressureAbsS0_res.L4.F2 p ρ r D := by
         filter_upwards with r
-        have hr := hρ
-        simp only [PressureS0.F, hp, epv_c16, epv_tree, epv_cond, epv_leaf, hr, hP, k0, k1, k2, k3, if_true, if_false, lt_self_iff_false, Matrix.of_apply, Matrix.cons_val, Fin.zero_eta, Fin.mk_one, Fin.reduceFinMk, Fin.isValue]
-        try ring
+        simp only [PressureS0.F, hp] <;> epv_eos_res_eq
       refine (hc.congr_of_eventuallyEq hev).congr_deriv ?_
-      simp only [PressureS0.J, hp, epv_c16, epv_tree, epv_cond, epv_leaf, epv_deriv, hρ, hP, k0, k1, k2, k3, if_true, if_false, lt_self_iff_false, Matrix.of_apply, Matrix.cons_val, Fin.zero_eta, Fin.mk_one, Fin.reduceFinMk, Fin.isValue]
-      try field_simp
-      try ring
+      simp only [PressureS0.J, hp] <;> epv_eos_res_unfold <;> (try simp only [hP]) <;> epv_eos_field
     · have hc : HasDerivAt (fun r => ResPressureAbsS0_res.L4.F2 p ρ x r) (ResPressureAbsS0_res.L4.F2_dD p ρ x D) D := by
-        apply ResPressureAbsS0_res.L4.F2_hasDerivAt_D <;> assumption
+        epv_eos_cert ResPressureAbsS0_res.L4.F2_hasDerivAt_D p ρ x D
       have hev : (fun r => PressureS0.F s ic ρ x r 2) =ᶠ[nhds D] fun r => ResPressureAbsS0_res.L4.F2 p ρ x r := by
-        filter_upwards with r
-        have hr := hρ
-        simp only [PressureS0.F, hp, epv_c16, epv_tree, epv_cond, epv_leaf, hr, hP, k0, k1, k2, k3, if_true, if_false, lt_self_iff_false, Matrix.of_apply, Matrix.cons_val, Fin.zero_eta, Fin.mk_one, Fin.reduceFinMk, Fin.isValue]
-        try ring
+        filter_upwards [isOpen_ne.mem_nhds hD] with r hr
+        simp only [PressureS0.F, hp] <;> epv_eos_res_eq
       refine (hc.congr_of_eventuallyEq hev).congr_deriv ?_
-      simp only [PressureS0.J, hp, epv_c16, epv_tree, epv_cond, epv_leaf, epv_deriv, hρ, hP, k0, k1, k2, k3, if_true, if_false, lt_self_iff_false, Matrix.of_apply, Matrix.cons_val, Fin.zero_eta, Fin.mk_one, Fin.reduceFinMk, Fin.isValue]
-      try field_simp
-      try ring
+      simp only [PressureS0.J, hp] <;> epv_eos_res_unfold <;> (try simp only [hP]) <;> epv_eos_field
 
 /-- `determinant` is the determinant of `F_prime` -/
 theorem pressureS0_det (s : EOS) (ic : NohIC) (ρ x D : ℝ) (hic : ic.Admissible 0) (hρ : ρ ≠ 0) :
     PressureS0.detv s ic ρ x D = (PressureS0.J s ic ρ x D).det := by
   obtain ⟨hu, hr0, hP0, hm⟩ := hic
-  have k0 : ¬ (0 ≤ ic.u_0) := not_le.mpr hu
-  have k1 : ¬ (ic.rho_0 ≤ 0) := not_le.mpr hr0
-  have k2 : ¬ (ic.P_0 < 0) := not_lt.mpr hP0
-  have k3 : True := trivial
   rw [Matrix.det_fin_three]
-  simp only [PressureS0.detv, PressureS0.J, epv_c16, epv_tree, epv_cond, epv_leaf, hρ, k0, k1, k2, k3, if_true, if_false, lt_self_iff_false, Matrix.of_apply, Matrix.cons_val, Fin.zero_eta, Fin.mk_one, Fin.reduceFinMk, Fin.isValue]
-  ring
+  simp only [PressureS0.detv, PressureS0.J] <;> epv_eos_res_eq
 
 /-- `F_prime_inv · F_prime = 1` wherever the class does not raise `ZeroDeterminantError` (`determinant ≠ 0`) -/
 theorem pressureS0_inverse (s : EOS) (ic : NohIC) (ρ x D : ℝ) (hic : ic.Admissible 0) (hρ : ρ ≠ 0) (hD : D ≠ 0)
     (hdet : PressureS0.detv s ic ρ x D ≠ 0) :
     PressureS0.Jinv s ic ρ x D * PressureS0.J s ic ρ x D = 1 := by
   obtain ⟨hu, hr0, hP0, hm⟩ := hic
-  have k0 : ¬ (0 ≤ ic.u_0) := not_le.mpr hu
-  have k1 : ¬ (ic.rho_0 ≤ 0) := not_le.mpr hr0
-  have k2 : ¬ (ic.P_0 < 0) := not_lt.mpr hP0
-  have k3 : True := trivial
-  generalize hd : PressureS0.detv s ic ρ x D = d at hdet
-  simp only [PressureS0.detv, epv_c16, epv_tree, epv_cond, epv_leaf, hρ, k0, k1, k2, k3, if_true, if_false, lt_self_iff_false] at hd
+  have hdet' := hdet
+  simp only [PressureS0.detv, epv_c16, epv_tree] at hdet'
+  revert hdet'
+  epv_eos_ifs
+  intro hdet'
+  simp only [epv_leaf] at hdet'
+  epv_eos_gen_ne hdet'
+  -- the guards of all entries of `F_prime_inv` and `F_prime` are decided once, at matrix level
+  simp only [PressureS0.Jinv, PressureS0.J, epv_c16]
+  simp only [epv_tree]
+  epv_eos_ifs
   ext i j
   fin_cases i <;> fin_cases j <;>
-    simp only [PressureS0.Jinv, PressureS0.J, epv_c16, epv_tree, epv_cond, epv_leaf, hρ, hd, hdet, k0, k1, k2, k3, if_true, if_false, lt_self_iff_false,
-      Matrix.mul_apply, Fin.sum_univ_three, Matrix.one_apply, Fin.reduceEq, Matrix.of_apply, Matrix.cons_val, Fin.zero_eta, Fin.mk_one, Fin.reduceFinMk, Fin.isValue] <;>
-    (try field_simp) <;> (try simp only [← hd]) <;> (try field_simp) <;> (try ring)
+    (simp only [Matrix.mul_apply, Fin.sum_univ_three, Matrix.one_apply, Fin.reduceEq, if_true, if_false, Matrix.of_apply, Matrix.cons_val, Fin.zero_eta, Fin.mk_one, Fin.reduceFinMk, Fin.isValue]
+     simp only [epv_leaf]
+     epv_eos_inv_entry)
 
 /-- `pressure_noh_residual`, symmetry 1: every entry of `F_prime` is the partial derivative of the corresponding component of `F`, for any EOS whose derivative methods are correct at the state -/
 theorem pressureS1_jacobian (s : EOS) (ic : NohIC) (ρ x D : ℝ) (hic : ic.Admissible 1) (hρ : ρ ≠ 0) (hD : D ≠ 0)
     (hs : s.PressureDerivsAt ρ x) :
     IsJacobian3 (PressureS1.F s ic) (PressureS1.J s ic ρ x D) ρ x D := by
   obtain ⟨hu, hr0, hP0, hm⟩ := hic
-  have k0 : ¬ (0 ≤ ic.u_0) := not_le.mpr hu
-  have k1 : ¬ (ic.rho_0 ≤ 0) := not_le.mpr hr0
-  have k2 : ¬ (ic.P_0 < 0) := not_lt.mpr hP0
   have hPz : ic.P_0 = 0 := hm (by norm_num)
-  have k3 := eq_true hPz
   set p := PressureS1.pres s ic ρ x with hp
   intro i
   fin_cases i <;> (try simp only [Fin.zero_eta, Fin.mk_one, Fin.reduceFinMk])
   · refine ⟨?_, ?_, ?_⟩
     · have hc : HasDerivAt (fun r => ResPressureAbsS1_res.L5.F0 p r x D) (ResPressureAbsS1_res.L5.F0_drho p ρ x D) ρ := by
-        apply ResPressureAbsS1_res.L5.F0_hasDerivAt_rho <;> assumption
+        epv_eos_cert ResPressureAbsS1_res.L5.F0_hasDerivAt_rho p ρ x D
       have hev : (fun r => PressureS1.F s ic r x D 0) =ᶠ[nhds ρ] fun r => ResPressureAbsS1_res.L5.F0 p r x D := by
         filter_upwards [isOpen_ne.mem_nhds hρ] with r hr
-        simp only [PressureS1.F, hp, epv_c16, epv_tree, epv_cond, epv_leaf, hr, hPz, k0, k1, k2, k3, if_true, if_false, lt_self_iff_false, Matrix.of_apply, Matrix.cons_val, Fin.zero_eta, Fin.mk_one, Fin.reduceFinMk, Fin.isValue]
-        try ring
+        simp only [PressureS1.F, hp] <;> epv_eos_res_eq
       refine (hc.congr_of_eventuallyEq hev).congr_deriv ?_
-      simp only [PressureS1.J, hp, epv_c16, epv_tree, epv_cond, epv_leaf, epv_deriv, hρ, hPz, k0, k1, k2, k3, if_true, if_false, lt_self_iff_false, Matrix.of_apply, Matrix.cons_val, Fin.zero_eta, Fin.mk_one, Fin.reduceFinMk, Fin.isValue]
-      try field_simp
-      try ring
+      simp only [PressureS1.J, hp] <;> epv_eos_res_unfold <;> (try simp only [hPz]) <;> epv_eos_field
     · have hc : HasDerivAt (fun r => ResPressureAbsS1_res.L5.F0 p ρ r D) (ResPressureAbsS1_res.L5.F0_dsie p ρ x D) x := by
-        apply ResPressureAbsS1_res.L5.F0_hasDerivAt_sie <;> assumption
+        epv_eos_cert ResPressureAbsS1_res.L5.F0_hasDerivAt_sie p ρ x D
       have hev : (fun r => PressureS1.F s ic ρ r D 0) =ᶠ[nhds x] fun r => ResPressureAbsS1_res.L5.F0 p ρ r D := by
         filter_upwards with r
-        have hr := hρ
-        simp only [PressureS1.F, hp, epv_c16, epv_tree, epv_cond, epv_leaf, hr, hPz, k0, k1, k2, k3, if_true, if_false, lt_self_iff_false, Matrix.of_apply, Matrix.cons_val, Fin.zero_eta, Fin.mk_one, Fin.reduceFinMk, Fin.isValue]
-        try ring
+        simp only [PressureS1.F, hp] <;> epv_eos_res_eq
       refine (hc.congr_of_eventuallyEq hev).congr_deriv ?_
-      simp only [PressureS1.J, hp, epv_c16, epv_tree, epv_cond, epv_leaf, epv_deriv, hρ, hPz, k0, k1, k2, k3, if_true, if_false, lt_self_iff_false, Matrix.of_apply, Matrix.cons_val, Fin.zero_eta, Fin.mk_one, Fin.reduceFinMk, Fin.isValue]
-      try field_simp
-      try ring
+      simp only [PressureS1.J, hp] <;> epv_eos_res_unfold <;> (try simp only [hPz]) <;> epv_eos_field
     · have hc : HasDerivAt (fun r => ResPressureAbsS1_res.L5.F0 p ρ x r) (ResPressureAbsS1_res.L5.F0_dD p ρ x D) D := by
-        apply ResPressureAbsS1_res.L5.F0_hasDerivAt_D <;> assumption
+        epv_eos_cert ResPressureAbsS1_res.L5.F0_hasDerivAt_D p ρ x D
       have hev : (fun r => PressureS1.F s ic ρ x r 0) =ᶠ[nhds D] fun r => ResPressureAbsS1_res.L5.F0 p ρ x r := by
-        filter_upwards with r
-        have hr := hρ
-        simp only [PressureS1.F, hp, epv_c16, epv_tree, epv_cond, epv_leaf, hr, hPz, k0, k1, k2, k3, if_true, if_false, lt_self_iff_false, Matrix.of_apply, Matrix.cons_val, Fin.zero_eta, Fin.mk_one, Fin.reduceFinMk, Fin.isValue]
-        try ring
+        filter_upwards [isOpen_ne.mem_nhds hD] with r hr
+        simp only [PressureS1.F, hp] <;> epv_eos_res_eq
       refine (hc.congr_of_eventuallyEq hev).congr_deriv ?_
-      simp only [PressureS1.J, hp, epv_c16, epv_tree, epv_cond, epv_leaf, epv_deriv, hρ, hPz, k0, k1, k2, k3, if_true, if_false, lt_self_iff_false, Matrix.of_apply, Matrix.cons_val, Fin.zero_eta, Fin.mk_one, Fin.reduceFinMk, Fin.isValue]
-      try field_simp
-      try ring
+      simp only [PressureS1.J, hp] <;> epv_eos_res_unfold <;> (try simp only [hPz]) <;> epv_eos_field
   · refine ⟨?_, ?_, ?_⟩
     · have hc : HasDerivAt (fun r => ResPressureAbsS1_res.L5.F1 p r x D) (ResPressureAbsS1_res.L5.F1_drho p ρ x D) ρ := by
-        apply ResPressureAbsS1_res.L5.F1_hasDerivAt_rho <;> assumption
+        epv_eos_cert ResPressureAbsS1_res.L5.F1_hasDerivAt_rho p ρ x D
       have hev : (fun r => PressureS1.F s ic r x D 1) =ᶠ[nhds ρ] fun r => (s.P r x - s.P ρ x) + ResPressureAbsS1_res.L5.F1 p r x D := by
         filter_upwards [isOpen_ne.mem_nhds hρ] with r hr
-        simp only [PressureS1.F, hp, epv_c16, epv_tree, epv_cond, epv_leaf, hr, hPz, k0, k1, k2, k3, if_true, if_false, lt_self_iff_false, Matrix.of_apply, Matrix.cons_val, Fin.zero_eta, Fin.mk_one, Fin.reduceFinMk, Fin.isValue]
-        try ring
+        simp only [PressureS1.F, hp] <;> epv_eos_res_eq
       refine (((hs.1.sub_const _).add hc).congr_of_eventuallyEq hev).congr_deriv ?_
-      simp only [PressureS1.J, hp, epv_c16, epv_tree, epv_cond, epv_leaf, epv_deriv, hρ, hPz, k0, k1, k2, k3, if_true, if_false, lt_self_iff_false, Matrix.of_apply, Matrix.cons_val, Fin.zero_eta, Fin.mk_one, Fin.reduceFinMk, Fin.isValue]
-      try field_simp
-      try ring
+      simp only [PressureS1.J, hp] <;> epv_eos_res_unfold <;> (try simp only [hPz]) <;> epv_eos_field
     · have hc : HasDerivAt (fun r => ResPressureAbsS1_res.L5.F1 p ρ r D) (ResPressureAbsS1_res.L5.F1_dsie p ρ x D) x := by
-        apply ResPressureAbsS1_res.L5.F1_hasDerivAt_sie <;> assumption
+        epv_eos_cert ResPressureAbsS1_res.L5.F1_hasDerivAt_sie p ρ x D
       have hev : (fun r => PressureS1.F s ic ρ r D 1) =ᶠ[nhds x] fun r => (s.P ρ r - s.P ρ x) + ResPressureAbsS1_res.L5.F1 p ρ r D := by
         filter_upwards with r
-        have hr := hρ
-        simp only [PressureS1.F, hp, epv_c16, epv_tree, epv_cond, epv_leaf, hr, hPz, k0, k1, k2, k3, if_true, if_false, lt_self_iff_false, Matrix.of_apply, Matrix.cons_val, Fin.zero_eta, Fin.mk_one, Fin.reduceFinMk, Fin.isValue]
-        try ring
+        simp only [PressureS1.F, hp] <;> epv_eos_res_eq
       refine (((hs.2.sub_const _).add hc).congr_of_eventuallyEq hev).congr_deriv ?_
-      simp only [PressureS1.J, hp, epv_c16, epv_tree, epv_cond, epv_leaf, epv_deriv, hρ, hPz, k0, k1, k2, k3, if_true, if_false, lt_self_iff_false, Matrix.of_apply, Matrix.cons_val, Fin.zero_eta, Fin.mk_one, Fin.reduceFinMk, Fin.isValue]
-      try field_simp
-      try ring
+      simp only [PressureS1.J, hp] <;> epv_eos_res_unfold <;> (try simp only [hPz]) <;> epv_eos_field
     · have hc : HasDerivAt (fun r => ResPressureAbsS1_res.L5.F1 p ρ x r) (ResPressureAbsS1_res.L5.F1_dD p ρ x D) D := by
-        apply ResPressureAbsS1_res.L5.F1_hasDerivAt_D <;> assumption
+        epv_eos_cert ResPressureAbsS1_res.L5.F1_hasDerivAt_D p ρ x D
       have hev : (fun r => PressureS1.F s ic ρ x r 1) =ᶠ[nhds D] fun r => ResPressureAbsS1_res.L5.F1 p ρ x r := by
-        filter_upwards with r
-        have hr := hρ
-        simp only [PressureS1.F, hp, epv_c16, epv_tree, epv_cond, epv_leaf, hr, hPz, k0, k1, k2, k3, if_true, if_false, lt_self_iff_false, Matrix.of_apply, Matrix.cons_val, Fin.zero_eta, Fin.mk_one, Fin.reduceFinMk, Fin.isValue]
-        try ring
+        filter_upwards [isOpen_ne.mem_nhds hD] with r hr
+        simp only [PressureS1.F, hp] <;> epv_eos_res_eq
       refine (hc.congr_of_eventuallyEq hev).congr_deriv ?_
-      simp only [PressureS1.J, hp, epv_c16, epv_tree, epv_cond, epv_leaf, epv_deriv, hρ, hPz, k0, k1, k2, k3, if_true, if_false, lt_self_iff_false, Matrix.of_apply, Matrix.cons_val, Fin.zero_eta, Fin.mk_one, Fin.reduceFinMk, Fin.isValue]
-      try field_simp
-      try ring
+      simp only [PressureS1.J, hp] <;> epv_eos_res_unfold <;> (try simp only [hPz]) <;> epv_eos_field
   · refine ⟨?_, ?_, ?_⟩
     · have hc : HasDerivAt (fun r => ResPressureAbsS1_res.L5.F2 p r x D) (ResPressureAbsS1_res.L5.F2_drho p ρ x D) ρ := by
-        apply ResPressureAbsS1_res.L5.F2_hasDerivAt_rho <;> assumption
+        epv_eos_cert ResPressureAbsS1_res.L5.F2_hasDerivAt_rho p ρ x D
       have hev : (fun r => PressureS1.F s ic r x D 2) =ᶠ[nhds ρ] fun r => ResPressureAbsS1_res.L5.F2 p r x D := by
         filter_upwards [isOpen_ne.mem_nhds hρ] with r hr
-        simp only [PressureS1.F, hp, epv_c16, epv_tree, epv_cond, epv_leaf, hr, hPz, k0, k1, k2, k3, if_true, if_false, lt_self_iff_false, Matrix.of_apply, Matrix.cons_val, Fin.zero_eta, Fin.mk_one, Fin.reduceFinMk, Fin.isValue]
-        try ring
+        simp only [PressureS1.F, hp] <;> epv_eos_res_eq
       refine (hc.congr_of_eventuallyEq hev).congr_deriv ?_
-      simp only [PressureS1.J, hp, epv_c16, epv_tree, epv_cond, epv_leaf, epv_deriv, hρ, hPz, k0, k1, k2, k3, if_true, if_false, lt_self_iff_false, Matrix.of_apply, Matrix.cons_val, Fin.zero_eta, Fin.mk_one, Fin.reduceFinMk, Fin.isValue]
-      try field_simp
-      try ring
+      simp only [PressureS1.J, hp] <;> epv_eos_res_unfold <;> (try simp only [hPz]) <;> epv_eos_field
     · have hc : HasDerivAt (fun r => ResPressureAbsS1_res.L5.F2 p ρ r D) (ResPressureAbsS1_res.L5.F2_dsie p ρ x D) x := by
-        apply ResPressureAbsS1_res.L5.F2_hasDerivAt_sie <;> assumption
+        epv_eos_cert ResPressureAbsS1_res.L5.F2_hasDerivAt_sie p ρ x D
       have hev : (fun r => PressureS1.F s ic ρ r D 2) =ᶠ[nhds x] fun r => ResPressureAbsS1_res.L5.F2 p ρ r D := by
         filter_upwards with r
-        have hr := hρ
-        simp only [PressureS1.F, hp, epv_c16, epv_tree, epv_cond, epv_leaf, hr, hPz, k0, k1, k2, k3, if_true, if_false, lt_self_iff_false, Matrix.of_apply, Matrix.cons_val, Fin.zero_eta, Fin.mk_one, Fin.reduceFinMk, Fin.isValue]
-        try ring
+        simp only [PressureS1.F, hp] <;> epv_eos_res_eq
       refine (hc.congr_of_eventuallyEq hev).congr_deriv ?_
-      simp only [PressureS1.J, hp, epv_c16, epv_tree, epv_cond, epv_leaf, epv_deriv, hρ, hPz, k0, k1, k2, k3, if_true, if_false, lt_self_iff_false, Matrix.of_apply, Matrix.cons_val, Fin.zero_eta, Fin.mk_one, Fin.reduceFinMk, Fin.isValue]
-      try field_simp
-      try ring
+      simp only [PressureS1.J, hp] <;> epv_eos_res_unfold <;> (try simp only [hPz]) <;> epv_eos_field
     · have hc : HasDerivAt (fun r => ResPressureAbsS1_res.L5.F2 p ρ x r) (ResPressureAbsS1_res.L5.F2_dD p ρ x D) D := by
-        apply ResPressureAbsS1_res.L5.F2_hasDerivAt_D <;> assumption
+        epv_eos_cert ResPressureAbsS1_res.L5.F2_hasDerivAt_D p ρ x D
       have hev : (fun r => PressureS1.F s ic ρ x r 2) =ᶠ[nhds D] fun r => ResPressureAbsS1_res.L5.F2 p ρ x r := by
-        filter_upwards with r
-        have hr := hρ
-        simp only [PressureS1.F, hp, epv_c16, epv_tree, epv_cond, epv_leaf, hr, hPz, k0, k1, k2, k3, if_true, if_false, lt_self_iff_false, Matrix.of_apply, Matrix.cons_val, Fin.zero_eta, Fin.mk_one, Fin.reduceFinMk, Fin.isValue]
-        try ring
+        filter_upwards [isOpen_ne.mem_nhds hD] with r hr
+        simp only [PressureS1.F, hp] <;> epv_eos_res_eq
       refine (hc.congr_of_eventuallyEq hev).congr_deriv ?_
-      simp only [PressureS1.J, hp, epv_c16, epv_tree, epv_cond, epv_leaf, epv_deriv, hρ, hPz, k0, k1, k2, k3, if_true, if_false, lt_self_iff_false, Matrix.of_apply, Matrix.cons_val, Fin.zero_eta, Fin.mk_one, Fin.reduceFinMk, Fin.isValue]
-      try field_simp
-      try ring
+      simp only [PressureS1.J, hp] <;> epv_eos_res_unfold <;> (try simp only [hPz]) <;> epv_eos_field
 
 /-- `determinant` is the determinant of `F_prime` -/
 theorem pressureS1_det (s : EOS) (ic : NohIC) (ρ x D : ℝ) (hic : ic.Admissible 1) (hρ : ρ ≠ 0) :
     PressureS1.detv s ic ρ x D = (PressureS1.J s ic ρ x D).det := by
   obtain ⟨hu, hr0, hP0, hm⟩ := hic
-  have k0 : ¬ (0 ≤ ic.u_0) := not_le.mpr hu
-  have k1 : ¬ (ic.rho_0 ≤ 0) := not_le.mpr hr0
-  have k2 : ¬ (ic.P_0 < 0) := not_lt.mpr hP0
   have hPz : ic.P_0 = 0 := hm (by norm_num)
-  have k3 := eq_true hPz
   rw [Matrix.det_fin_three]
-  simp only [PressureS1.detv, PressureS1.J, epv_c16, epv_tree, epv_cond, epv_leaf, hρ, k0, k1, k2, k3, if_true, if_false, lt_self_iff_false, Matrix.of_apply, Matrix.cons_val, Fin.zero_eta, Fin.mk_one, Fin.reduceFinMk, Fin.isValue]
-  ring
+  simp only [PressureS1.detv, PressureS1.J] <;> epv_eos_res_eq
 
 /-- `F_prime_inv · F_prime = 1` wherever the class does not raise `ZeroDeterminantError` (`determinant ≠ 0`) -/
 theorem pressureS1_inverse (s : EOS) (ic : NohIC) (ρ x D : ℝ) (hic : ic.Admissible 1) (hρ : ρ ≠ 0) (hD : D ≠ 0)
     (hdet : PressureS1.detv s ic ρ x D ≠ 0) :
     PressureS1.Jinv s ic ρ x D * PressureS1.J s ic ρ x D = 1 := by
   obtain ⟨hu, hr0, hP0, hm⟩ := hic
-  have k0 : ¬ (0 ≤ ic.u_0) := not_le.mpr hu
-  have k1 : ¬ (ic.rho_0 ≤ 0) := not_le.mpr hr0
-  have k2 : ¬ (ic.P_0 < 0) := not_lt.mpr hP0
   have hPz : ic.P_0 = 0 := hm (by norm_num)
-  have k3 := eq_true hPz
-  generalize hd : PressureS1.detv s ic ρ x D = d at hdet
-  simp only [PressureS1.detv, epv_c16, epv_tree, epv_cond, epv_leaf, hρ, k0, k1, k2, k3, if_true, if_false, lt_self_iff_false] at hd
+  have hdet' := hdet
+  simp only [PressureS1.detv, epv_c16, epv_tree] at hdet'
+  revert hdet'
+  epv_eos_ifs
+  intro hdet'
+  simp only [epv_leaf] at hdet'
+  epv_eos_gen_ne hdet'
+  -- the guards of all entries of `F_prime_inv` and `F_prime` are decided once, at matrix level
+  simp only [PressureS1.Jinv, PressureS1.J, epv_c16]
+  simp only [epv_tree]
+  epv_eos_ifs
   ext i j
   fin_cases i <;> fin_cases j <;>
-    simp only [PressureS1.Jinv, PressureS1.J, epv_c16, epv_tree, epv_cond, epv_leaf, hρ, hd, hdet, k0, k1, k2, k3, if_true, if_false, lt_self_iff_false,
-      Matrix.mul_apply, Fin.sum_univ_three, Matrix.one_apply, Fin.reduceEq, Matrix.of_apply, Matrix.cons_val, Fin.zero_eta, Fin.mk_one, Fin.reduceFinMk, Fin.isValue] <;>
-    (try field_simp) <;> (try simp only [← hd]) <;> (try field_simp) <;> (try ring)
+    (simp only [Matrix.mul_apply, Fin.sum_univ_three, Matrix.one_apply, Fin.reduceEq, if_true, if_false, Matrix.of_apply, Matrix.cons_val, Fin.zero_eta, Fin.mk_one, Fin.reduceFinMk, Fin.isValue]
+     simp only [epv_leaf]
+     epv_eos_inv_entry)
 
 /-- `pressure_noh_residual`, symmetry 2: every entry of `F_prime` is the partial derivative of the corresponding component of `F`, for any EOS whose derivative methods are correct at the state -/
 theorem pressureS2_jacobian (s : EOS) (ic : NohIC) (ρ x D : ℝ) (hic : ic.Admissible 2) (hρ : ρ ≠ 0) (hD : D ≠ 0)
     (hs : s.PressureDerivsAt ρ x) :
     IsJacobian3 (PressureS2.F s ic) (PressureS2.J s ic ρ x D) ρ x D := by
   obtain ⟨hu, hr0, hP0, hm⟩ := hic
-  have k0 : ¬ (0 ≤ ic.u_0) := not_le.mpr hu
-  have k1 : ¬ (ic.rho_0 ≤ 0) := not_le.mpr hr0
-  have k2 : ¬ (ic.P_0 < 0) := not_lt.mpr hP0
   have hPz : ic.P_0 = 0 := hm (by norm_num)
-  have k3 := eq_true hPz
   set p := PressureS2.pres s ic ρ x with hp
   intro i
   fin_cases i <;> (try simp only [Fin.zero_eta, Fin.mk_one, Fin.reduceFinMk])
   · refine ⟨?_, ?_, ?_⟩
     · have hc : HasDerivAt (fun r => ResPressureAbsS2_res.L5.F0 p r x D) (ResPressureAbsS2_res.L5.F0_drho p ρ x D) ρ := by
-        apply ResPressureAbsS2_res.L5.F0_hasDerivAt_rho <;> assumption
+        epv_eos_cert ResPressureAbsS2_res.L5.F0_hasDerivAt_rho p ρ x D
       have hev : (fun r => PressureS2.F s ic r x D 0) =ᶠ[nhds ρ] fun r => ResPressureAbsS2_res.L5.F0 p r x D := by
         filter_upwards [isOpen_ne.mem_nhds hρ] with r hr
-        simp only [PressureS2.F, hp, epv_c16, epv_tree, epv_cond, epv_leaf, hr, hPz, k0, k1, k2, k3, if_true, if_false, lt_self_iff_false, Matrix.of_apply, Matrix.cons_val, Fin.zero_eta, Fin.mk_one, Fin.reduceFinMk, Fin.isValue]
-        try ring
+        simp only [PressureS2.F, hp] <;> epv_eos_res_eq
       refine (hc.congr_of_eventuallyEq hev).congr_deriv ?_
-      simp only [PressureS2.J, hp, epv_c16, epv_tree, epv_cond, epv_leaf, epv_deriv, hρ, hPz, k0, k1, k2, k3, if_true, if_false, lt_self_iff_false, Matrix.of_apply, Matrix.cons_val, Fin.zero_eta, Fin.mk_one, Fin.reduceFinMk, Fin.isValue]
-      try field_simp
-      try ring
+      simp only [PressureS2.J, hp] <;> epv_eos_res_unfold <;> (try simp only [hPz]) <;> epv_eos_field
     · have hc : HasDerivAt (fun r => ResPressureAbsS2_res.L5.F0 p ρ r D) (ResPressureAbsS2_res.L5.F0_dsie p ρ x D) x := by
-        apply ResPressureAbsS2_res.L5.F0_hasDerivAt_sie <;> assumption
+        epv_eos_cert ResPressureAbsS2_res.L5.F0_hasDerivAt_sie p ρ x D
       have hev : (fun r => PressureS2.F s ic ρ r D 0) =ᶠ[nhds x] fun r => ResPressureAbsS2_res.L5.F0 p ρ r D := by
         filter_upwards with r
-        have hr := hρ
-        simp only [PressureS2.F, hp, epv_c16, epv_tree, epv_cond, epv_leaf, hr, hPz, k0, k1, k2, k3, if_true, if_false, lt_self_iff_false, Matrix.of_apply, Matrix.cons_val, Fin.zero_eta, Fin.mk_one, Fin.reduceFinMk, Fin.isValue]
-        try ring
+        simp only [PressureS2.F, hp] <;> epv_eos_res_eq
       refine (hc.congr_of_eventuallyEq hev).congr_deriv ?_
-      simp only [PressureS2.J, hp, epv_c16, epv_tree, epv_cond, epv_leaf, epv_deriv, hρ, hPz, k0, k1, k2, k3, if_true, if_false, lt_self_iff_false, Matrix.of_apply, Matrix.cons_val, Fin.zero_eta, Fin.mk_one, Fin.reduceFinMk, Fin.isValue]
-      try field_simp
-      try ring
+      simp only [PressureS2.J, hp] <;> epv_eos_res_unfold <;> (try simp only [hPz]) <;> epv_eos_field
     · have hc : HasDerivAt (fun r => ResPressureAbsS2_res.L5.F0 p ρ x r) (ResPressureAbsS2_res.L5.F0_dD p ρ x D) D := by
-        apply ResPressureAbsS2_res.L5.F0_hasDerivAt_D <;> assumption
+        epv_eos_cert ResPressureAbsS2_res.L5.F0_hasDerivAt_D p ρ x D
       have hev : (fun r => PressureS2.F s ic ρ x r 0) =ᶠ[nhds D] fun r => ResPressureAbsS2_res.L5.F0 p ρ x r := by
-        filter_upwards with r
-        have hr := hρ
-        simp only [PressureS2.F, hp, epv_c16, epv_tree, epv_cond, epv_leaf, hr, hPz, k0, k1, k2, k3, if_true, if_false, lt_self_iff_false, Matrix.of_apply, Matrix.cons_val, Fin.zero_eta, Fin.mk_one, Fin.reduceFinMk, Fin.isValue]
-        try ring
+        filter_upwards [isOpen_ne.mem_nhds hD] with r hr
+        simp only [PressureS2.F, hp] <;> epv_eos_res_eq
       refine (hc.congr_of_eventuallyEq hev).congr_deriv ?_
-      simp only [PressureS2.J, hp, epv_c16, epv_tree, epv_cond, epv_leaf, epv_deriv, hρ, hPz, k0, k1, k2, k3, if_true, if_false, lt_self_iff_false, Matrix.of_apply, Matrix.cons_val, Fin.zero_eta, Fin.mk_one, Fin.reduceFinMk, Fin.isValue]
-      try field_simp
-      try ring
+      simp only [PressureS2.J, hp] <;> epv_eos_res_unfold <;> (try simp only [hPz]) <;> epv_eos_field
   · refine ⟨?_, ?_, ?_⟩
     · have hc : HasDerivAt (fun r => ResPressureAbsS2_res.L5.F1 p r x D) (ResPressureAbsS2_res.L5.F1_drho p ρ x D) ρ := by
-        apply ResPressureAbsS2_res.L5.F1_hasDerivAt_rho <;> assumption
+        epv_eos_cert ResPressureAbsS2_res.L5.F1_hasDerivAt_rho p ρ x D
       have hev : (fun r => PressureS2.F s ic r x D 1) =ᶠ[nhds ρ] fun r => (s.P r x - s.P ρ x) + ResPressureAbsS2_res.L5.F1 p r x D := by
         filter_upwards [isOpen_ne.mem_nhds hρ] with r hr
-        simp only [PressureS2.F, hp, epv_c16, epv_tree, epv_cond, epv_leaf, hr, hPz, k0, k1, k2, k3, if_true, if_false, lt_self_iff_false, Matrix.of_apply, Matrix.cons_val, Fin.zero_eta, Fin.mk_one, Fin.reduceFinMk, Fin.isValue]
-        try ring
+        simp only [PressureS2.F, hp] <;> epv_eos_res_eq
       refine (((hs.1.sub_const _).add hc).congr_of_eventuallyEq hev).congr_deriv ?_
-      simp only [PressureS2.J, hp, epv_c16, epv_tree, epv_cond, epv_leaf, epv_deriv, hρ, hPz, k0, k1, k2, k3, if_true, if_false, lt_self_iff_false, Matrix.of_apply, Matrix.cons_val, Fin.zero_eta, Fin.mk_one, Fin.reduceFinMk, Fin.isValue]
-      try field_simp
-      try ring
+      simp only [PressureS2.J, hp] <;> epv_eos_res_unfold <;> (try simp only [hPz]) <;> epv_eos_field
     · have hc : HasDerivAt (fun r => ResPressureAbsS2_res.L5.F1 p ρ r D) (ResPressureAbsS2_res.L5.F1_dsie p ρ x D) x := by
-        apply ResPressureAbsS2_res.L5.F1_hasDerivAt_sie <;> assumption
+        epv_eos_cert ResPressureAbsS2_res.L5.F1_hasDerivAt_sie p ρ x D
       have hev : (fun r => PressureS2.F s ic ρ r D 1) =ᶠ[nhds x] fun r => (s.P ρ r - s.P ρ x) + ResPressureAbsS2_res.L5.F1 p ρ r D := by
         filter_upwards with r
-        have hr := hρ
-        simp only [PressureS2.F, hp, epv_c16, epv_tree, epv_cond, epv_leaf, hr, hPz, k0, k1, k2, k3, if_true, if_false, lt_self_iff_false, Matrix.of_apply, Matrix.cons_val, Fin.zero_eta, Fin.mk_one, Fin.reduceFinMk, Fin.isValue]
-        try ring
+        simp only [PressureS2.F, hp] <;> epv_eos_res_eq
       refine (((hs.2.sub_const _).add hc).congr_of_eventuallyEq hev).congr_deriv ?_
-      simp only [PressureS2.J, hp, epv_c16, epv_tree, epv_cond, epv_leaf, epv_deriv, hρ, hPz, k0, k1, k2, k3, if_true, if_false, lt_self_iff_false, Matrix.of_apply, Matrix.cons_val, Fin.zero_eta, Fin.mk_one, Fin.reduceFinMk, Fin.isValue]
-      try field_simp
-      try ring
+      simp only [PressureS2.J, hp] <;> epv_eos_res_unfold <;> (try simp only [hPz]) <;> epv_eos_field
     · have hc : HasDerivAt (fun r => ResPressureAbsS2_res.L5.F1 p ρ x r) (ResPressureAbsS2_res.L5.F1_dD p ρ x D) D := by
-        apply ResPressureAbsS2_res.L5.F1_hasDerivAt_D <;> assumption
+        epv_eos_cert ResPressureAbsS2_res.L5.F1_hasDerivAt_D p ρ x D
       have hev : (fun r => PressureS2.F s ic ρ x r 1) =ᶠ[nhds D] fun r => ResPressureAbsS2_res.L5.F1 p ρ x r := by
-        filter_upwards with r
-        have hr := hρ
-        simp only [PressureS2.F, hp, epv_c16, epv_tree, epv_cond, epv_leaf, hr, hPz, k0, k1, k2, k3, if_true, if_false, lt_self_iff_false, Matrix.of_apply, Matrix.cons_val, Fin.zero_eta, Fin.mk_one, Fin.reduceFinMk, Fin.isValue]
-        try ring
+        filter_upwards [isOpen_ne.mem_nhds hD] with r hr
+        simp only [PressureS2.F, hp] <;> epv_eos_res_eq
       refine (hc.congr_of_eventuallyEq hev).congr_deriv ?_
-      simp only [PressureS2.J, hp, epv_c16, epv_tree, epv_cond, epv_leaf, epv_deriv, hρ, hPz, k0, k1, k2, k3, if_true, if_false, lt_self_iff_false, Matrix.of_apply, Matrix.cons_val, Fin.zero_eta, Fin.mk_one, Fin.reduceFinMk, Fin.isValue]
-      try field_simp
-      try ring
+      simp only [PressureS2.J, hp] <;> epv_eos_res_unfold <;> (try simp only [hPz]) <;> epv_eos_field
   · refine ⟨?_, ?_, ?_⟩
     · have hc : HasDerivAt (fun r => ResPressureAbsS2_res.L5.F2 p r x D) (ResPressureAbsS2_res.L5.F2_drho p ρ x D) ρ := by
-        apply ResPressureAbsS2_res.L5.F2_hasDerivAt_rho <;> assumption
+        epv_eos_cert ResPressureAbsS2_res.L5.F2_hasDerivAt_rho p ρ x D
       have hev : (fun r => PressureS2.F s ic r x D 2) =ᶠ[nhds ρ] fun r => ResPressureAbsS2_res.L5.F2 p r x D := by
         filter_upwards [isOpen_ne.mem_nhds hρ] with r hr
-        simp only [PressureS2.F, hp, epv_c16, epv_tree, epv_cond, epv_leaf, hr, hPz, k0, k1, k2, k3, if_true, if_false, lt_self_iff_false, Matrix.of_apply, Matrix.cons_val, Fin.zero_eta, Fin.mk_one, Fin.reduceFinMk, Fin.isValue]
-        try ring
+        simp only [PressureS2.F, hp] <;> epv_eos_res_eq
       refine (hc.congr_of_eventuallyEq hev).congr_deriv ?_
-      simp only [PressureS2.J, hp, epv_c16, epv_tree, epv_cond, epv_leaf, epv_deriv, hρ, hPz, k0, k1, k2, k3, if_true, if_false, lt_self_iff_false, Matrix.of_apply, Matrix.cons_val, Fin.zero_eta, Fin.mk_one, Fin.reduceFinMk, Fin.isValue]
-      try field_simp
-      try ring
+      simp only [PressureS2.J, hp] <;> epv_eos_res_unfold <;> (try simp only [hPz]) <;> epv_eos_field
     · have hc : HasDerivAt (fun r => ResPressureAbsS2_res.L5.F2 p ρ r D) (ResPressureAbsS2_res.L5.F2_dsie p ρ x D) x := by
-        apply ResPressureAbsS2_res.L5.F2_hasDerivAt_sie <;> assumption
+        epv_eos_cert ResPressureAbsS2_res.L5.F2_hasDerivAt_sie p ρ x D
       have hev : (fun r => PressureS2.F s ic ρ r D 2) =ᶠ[nhds x] fun r => ResPressureAbsS2_res.L5.F2 p ρ r D := by
         filter_upwards with r
-        have hr := hρ
-        simp only [PressureS2.F, hp, epv_c16, epv_tree, epv_cond, epv_leaf, hr, hPz, k0, k1, k2, k3, if_true, if_false, lt_self_iff_false, Matrix.of_apply, Matrix.cons_val, Fin.zero_eta, Fin.mk_one, Fin.reduceFinMk, Fin.isValue]
-        try ring
+        simp only [PressureS2.F, hp] <;> epv_eos_res_eq
       refine (hc.congr_of_eventuallyEq hev).congr_deriv ?_
-      simp only [PressureS2.J, hp, epv_c16, epv_tree, epv_cond, epv_leaf, epv_deriv, hρ, hPz, k0, k1, k2, k3, if_true, if_false, lt_self_iff_false, Matrix.of_apply, Matrix.cons_val, Fin.zero_eta, Fin.mk_one, Fin.reduceFinMk, Fin.isValue]
-      try field_simp
-      try ring
+      simp only [PressureS2.J, hp] <;> epv_eos_res_unfold <;> (try simp only [hPz]) <;> epv_eos_field
     · have hc : HasDerivAt (fun r => ResPressureAbsS2_res.L5.F2 p ρ x r) (ResPressureAbsS2_res.L5.F2_dD p ρ x D) D := by
-        apply ResPressureAbsS2_res.L5.F2_hasDerivAt_D <;> assumption
+        epv_eos_cert ResPressureAbsS2_res.L5.F2_hasDerivAt_D p ρ x D
       have hev : (fun r => PressureS2.F s ic ρ x r 2) =ᶠ[nhds D] fun r => ResPressureAbsS2_res.L5.F2 p ρ x r := by
-        filter_upwards with r
-        have hr := hρ
-        simp only [PressureS2.F, hp, epv_c16, epv_tree, epv_cond, epv_leaf, hr, hPz, k0, k1, k2, k3, if_true, if_false, lt_self_iff_false, Matrix.of_apply, Matrix.cons_val, Fin.zero_eta, Fin.mk_one, Fin.reduceFinMk, Fin.isValue]
-        try ring
+        filter_upwards [isOpen_ne.mem_nhds hD] with r hr
+        simp only [PressureS2.F, hp] <;> epv_eos_res_eq
       refine (hc.congr_of_eventuallyEq hev).congr_deriv ?_
-      simp only [PressureS2.J, hp, epv_c16, epv_tree, epv_cond, epv_leaf, epv_deriv, hρ, hPz, k0, k1, k2, k3, if_true, if_false, lt_self_iff_false, Matrix.of_apply, Matrix.cons_val, Fin.zero_eta, Fin.mk_one, Fin.reduceFinMk, Fin.isValue]
-      try field_simp
-      try ring
+      simp only [PressureS2.J, hp] <;> epv_eos_res_unfold <;> (try simp only [hPz]) <;> epv_eos_field
 
 /-- `determinant` is the determinant of `F_prime` -/
 theorem pressureS2_det (s : EOS) (ic : NohIC) (ρ x D : ℝ) (hic : ic.Admissible 2) (hρ : ρ ≠ 0) :
     PressureS2.detv s ic ρ x D = (PressureS2.J s ic ρ x D).det := by
   obtain ⟨hu, hr0, hP0, hm⟩ := hic
-  have k0 : ¬ (0 ≤ ic.u_0) := not_le.mpr hu
-  have k1 : ¬ (ic.rho_0 ≤ 0) := not_le.mpr hr0
-  have k2 : ¬ (ic.P_0 < 0) := not_lt.mpr hP0
   have hPz : ic.P_0 = 0 := hm (by norm_num)
-  have k3 := eq_true hPz
   rw [Matrix.det_fin_three]
-  simp only [PressureS2.detv, PressureS2.J, epv_c16, epv_tree, epv_cond, epv_leaf, hρ, k0, k1, k2, k3, if_true, if_false, lt_self_iff_false, Matrix.of_apply, Matrix.cons_val, Fin.zero_eta, Fin.mk_one, Fin.reduceFinMk, Fin.isValue]
-  ring
+  simp only [PressureS2.detv, PressureS2.J] <;> epv_eos_res_eq
 
 /-- `F_prime_inv · F_prime = 1` wherever the class does not raise `ZeroDeterminantError` (`determinant ≠ 0`) -/
 theorem pressureS2_inverse (s : EOS) (ic : NohIC) (ρ x D : ℝ) (hic : ic.Admissible 2) (hρ : ρ ≠ 0) (hD : D ≠ 0)
     (hdet : PressureS2.detv s ic ρ x D ≠ 0) :
     PressureS2.Jinv s ic ρ x D * PressureS2.J s ic ρ x D = 1 := by
   obtain ⟨hu, hr0, hP0, hm⟩ := hic
-  have k0 : ¬ (0 ≤ ic.u_0) := not_le.mpr hu
-  have k1 : ¬ (ic.rho_0 ≤ 0) := not_le.mpr hr0
-  have k2 : ¬ (ic.P_0 < 0) := not_lt.mpr hP0
   have hPz : ic.P_0 = 0 := hm (by norm_num)
-  have k3 := eq_true hPz
-  generalize hd : PressureS2.detv s ic ρ x D = d at hdet
-  simp only [PressureS2.detv, epv_c16, epv_tree, epv_cond, epv_leaf, hρ, k0, k1, k2, k3, if_true, if_false, lt_self_iff_false] at hd
+  have hdet' := hdet
+  simp only [PressureS2.detv, epv_c16, epv_tree] at hdet'
+  revert hdet'
+  epv_eos_ifs
+  intro hdet'
+  simp only [epv_leaf] at hdet'
+  epv_eos_gen_ne hdet'
+  -- the guards of all entries of `F_prime_inv` and `F_prime` are decided once, at matrix level
+  simp only [PressureS2.Jinv, PressureS2.J, epv_c16]
+  simp only [epv_tree]
+  epv_eos_ifs
   ext i j
   fin_cases i <;> fin_cases j <;>
-    simp only [PressureS2.Jinv, PressureS2.J, epv_c16, epv_tree, epv_cond, epv_leaf, hρ, hd, hdet, k0, k1, k2, k3, if_true, if_false, lt_self_iff_false,
-      Matrix.mul_apply, Fin.sum_univ_three, Matrix.one_apply, Fin.reduceEq, Matrix.of_apply, Matrix.cons_val, Fin.zero_eta, Fin.mk_one, Fin.reduceFinMk, Fin.isValue] <;>
-    (try field_simp) <;> (try simp only [← hd]) <;> (try field_simp) <;> (try ring)
+    (simp only [Matrix.mul_apply, Fin.sum_univ_three, Matrix.one_apply, Fin.reduceEq, if_true, if_false, Matrix.of_apply, Matrix.cons_val, Fin.zero_eta, Fin.mk_one, Fin.reduceFinMk, Fin.isValue]
+     simp only [epv_leaf]
+     epv_eos_inv_entry)
 
 /-- non-vacuity: the default initial state ρ₀ = 1, u₀ = -1, P₀ = 0 is admissible in every symmetry -/
 example : (⟨1, -1, 0⟩ : NohIC).Admissible 0 ∧ (⟨1, -1, 0⟩ : NohIC).Admissible 1 ∧ (⟨1, -1, 0⟩ : NohIC).Admissible 2 := by
